@@ -18,6 +18,7 @@ import Ogen.NameGen_proof
 import Ogen.TStore_proof
 import Ogen.UnixTime_proof
 import Ogen.FloatValidateModel
+import Ogen.JsonCodecDriver
 
 /-! Line-protocol driver over all executable models: `<model> <payload>` per line, one
     canonical output line per input line. Core-only (no Mathlib) so it links natively. -/
@@ -65,6 +66,7 @@ def dispatch (line : String) : String :=
     | "tstore" => TStore.tstoreLine payload
     | "unixt" => UnixT.unixLine payload
     | "vfloat" => FloatV.floatLine payload
+    | "jcodec" => JCodecDrv.codecLine payload
     | "jeq" => JEqDrv.runLine payload
     | "enum" => JEqDrv.enumLine payload
     | _ => "bad-model"
